@@ -776,6 +776,7 @@ def fn_key(modpath, it):
 def splice(fname, modpath, src, overlay, used, lost, opts=None, shapes=None):
     opts = opts or {}
     drop, drop_contract, base_kinds = opts.get('drop', set()), opts.get('drop_contract', set()), opts.get('loop_kinds', None)
+    noiso = opts.get('no_isolation', set())
     shapes = shapes if shapes is not None else {'uncontracted': [], 'loop_kinds': {}}
     items = rsx.parse_items(src)
     ed = Edits(src)
@@ -803,6 +804,10 @@ def splice(fname, modpath, src, overlay, used, lost, opts=None, shapes=None):
                 shapes['uncontracted'].append(key)
             continue
         tag = ' // @contract ' + key
+        if key in noiso and it.loops and not any('loop_isolation' in a for a in ov['attrs']):
+            # second attempt of ./check for a function whose proof failed: its loops also see what is known before them (facts
+            # about locals the invariants do not mention, e.g. a hoisted sub-expression). Same obligations, another proof context.
+            ed.add(it.header_start, it.header_start, '#[verifier::loop_isolation(false)]\n    ', 'OV')
         for a in ov['attrs']:
             ed.add(it.header_start, it.header_start, a + '\n    ', 'OV')
         if ov['ret']:
@@ -1029,6 +1034,7 @@ def main():
     ap.add_argument('--out', required=True)
     ap.add_argument('--arch', default='x86_64')
     ap.add_argument('--report')
+    ap.add_argument('--no-isolation', default='', help='comma list of function keys that get #[verifier::loop_isolation(false)]')
     ap.add_argument('--drop', default='', help='comma list of function keys whose proof annotations are left out (body unverified, contract kept)')
     ap.add_argument('--drop-contract', default='', help='comma list of function keys whose whole overlay entry is left out')
     ap.add_argument('--write-baseline', nargs='?', const='', metavar='FILE',
@@ -1037,7 +1043,7 @@ def main():
     a = ap.parse_args()
     report = {'rules': defaultdict(list)}
     try:
-        text = build(a.repo, a.contracts, a.arch, report, {'drop': set(filter(None, a.drop.split(','))), 'drop_contract': set(filter(None, a.drop_contract.split(',')))})
+        text = build(a.repo, a.contracts, a.arch, report, {'drop': set(filter(None, a.drop.split(','))), 'drop_contract': set(filter(None, a.drop_contract.split(','))), 'no_isolation': set(filter(None, a.no_isolation.split(',')))})
     except (ExtractError, rsx.ScanError) as e:
         print('EXTRACT-ERROR: %s' % e, file=sys.stderr)
         sys.exit(2)
